@@ -66,7 +66,8 @@ Expected(c) == IF Bounded(c) THEN Min(BoundSet(c)) ELSE -1
 \* over-delivery guard of a bounded cell / cut of an unbounded one / number of RPS tokens of the engine run
 Cap(c)      == (IF Bounded(c) THEN Expected(c) ELSE 0) + 2 * Entries(c) + 3
 \* consumers stop taking and the run is cancelled when Stop(c) items were taken
-Stop(c)     == IF c.cut > 0 THEN c.cut ELSE Cap(c)
+\* (cut = -1: the context is cancelled before Run starts - nothing is taken)
+Stop(c)     == IF c.cut > 0 THEN c.cut ELSE IF c.cut < 0 THEN 0 ELSE Cap(c)
 \* how many times entry j is among the first n deliveries (cyclic file / ring order): every full round hands out
 \* Copies[j]; in the last, partial round entry j occupies ring positions Before(j)+1 .. Before(j)+Copies[j]
 RECURSIVE Prefix(_, _)      \* <<0, f[1], f[1]+f[2], ...>>, length j + 1
